@@ -40,8 +40,10 @@ PROPS = {
     "C03": dict(ops=ALL_SRC, kinds=["C03"], thms="C03", trees="std"),
     "C04": dict(ops=[o for o in ALL_SRC if o not in ("from_iter", "interval")] + ["for_each"],
                 kinds=["C04"], thms="C04"),
+    # "the remaining live upstreams are disposed": an upstream still live at a quiescent point after the
+    # output ended (C04:Orphan) is a violation of C05 as well
     "C05": dict(ops=["map", "filter", "scan", "take", "skip", "merge", "concat", "combine",
-                     "flatten", "share"], kinds=["C05"], thms="C05"),
+                     "flatten", "share"], kinds=["C05", "C04:Orphan"], thms="C05"),
     "C17": dict(ops=ALL_SRC + ["for_each"], kinds=["C17"], thms="C17", trees="std"),
     "C07": dict(ops=UNARY, kinds=["C07"], thms="C07", skip_headers=["op=take n=0"]),
     "C08": dict(ops=["merge"], kinds=["C08"], thms="C08"),
@@ -525,6 +527,12 @@ def kind_of(tok):
     return parts[0], ":".join(parts[:2])
 
 
+def matches(tok, kinds):
+    """kinds holds property ids ('C05') and/or single kinds of another property ('C04:Orphan')"""
+    a, b = kind_of(tok)
+    return a in kinds or b in kinds
+
+
 def suppressed_by(known, op, tok, classes):
     _, kind = kind_of(tok)
     for f in known["findings"]:
@@ -554,7 +562,7 @@ def violates(script, variant, prop_kinds, known, need_conf=False):
     op = header_op(script)
     if any(k in cl for k in SKIP_CLASSES):
         return [], tr
-    bad = [v for v in vs if kind_of(v)[0] in prop_kinds and not suppressed_by(known, op, v, cl)]
+    bad = [v for v in vs if matches(v, prop_kinds) and not suppressed_by(known, op, v, cl)]
     return bad, tr
 
 
@@ -588,6 +596,44 @@ def shrink(script, variant, prop_kinds, known, budget=150):
         else:
             i += 1
     return "%s| %s" % (h, " ".join(moves)), bad, tr
+
+
+def extend_search(mism, variant, prop_kinds, known, budget=400, depth=4):
+    """model and crate disagree on these scripts but no monitor of the property rejected a crate trace.  The
+    model's environment is no guide after the divergence, so continue each history ON THE CRATE, choosing the
+    next move among those that are conformant in the state the crate's OWN trace leaves (TraceEnv.v,
+    `driver extend`), breadth first, until a monitor of the property rejects (or the budget is spent)."""
+    tried = 0
+    frontier = [s for s, _, _ in mism[:12] if "subs=2" not in s and "op=tree" not in s and "late=1" not in s]
+    for _ in range(depth):
+        nxt = []
+        if not frontier:
+            break
+        traces = run_real(frontier, variant)
+        r = sh([DRIVER, "extend"], inp="\n".join("%s | %s" % (s.split("|")[0].strip(), t)
+                                                 for s, t in zip(frontier, traces)) + "\n", timeout=600)
+        cands = r.stdout.split("\n")[:len(frontier)]
+        batch = []
+        for s, cl in zip(frontier, cands):
+            for mv in cl.split():
+                batch.append(s.rstrip() + " " + mv)
+        batch = batch[:max(0, budget - tried)]
+        if not batch:
+            break
+        tried += len(batch)
+        tr2 = run_real(batch, variant)
+        mon2 = monitor(batch, tr2)
+        conf = sh([DRIVER, "tconf"], inp="\n".join("%s | %s" % (s.split("|")[0].strip(), t)
+                                                  for s, t in zip(batch, tr2)) + "\n", timeout=600).stdout.split("\n")
+        for s, t, (vs, cl), cf in zip(batch, tr2, mon2, conf):
+            if cf.strip() != "1" or any(k in cl for k in SKIP_CLASSES):
+                continue
+            bad = [v for v in vs if matches(v, prop_kinds) and not suppressed_by(known, header_op(s), v, cl)]
+            if bad:
+                return s, bad, t, tried
+            nxt.append(s)
+        frontier = nxt[:60]
+    return None, [], "", tried
 
 
 def write_replay(prop, payload):
@@ -717,7 +763,7 @@ def seq_check(prop, tier, seed, t0, spec=None):
                 or any(hh in s for hh in spec.get("skip_headers", [])):
             continue   # outside the quantifier of this property
         for v in vs:
-            if kind_of(v)[0] in kinds:
+            if matches(v, kinds):
                 f = suppressed_by(known, op, v, cl)
                 if f and prop in f["properties"]:
                     known_hits.setdefault(f["id"], (f, s))
@@ -751,7 +797,21 @@ def seq_check(prop, tier, seed, t0, spec=None):
         status = 1
         nviol += 1
     # 2. broken obligations without a failing input
-    if not viol_scripts and not extra_viols:
+    crate_search = None
+    if not viol_scripts and not extra_viols and mismatches:
+        fs, fbad, ftr, ntried = extend_search(mismatches, variant, kinds, known)
+        crate_search = dict(histories_tried_on_the_crate=ntried, found=bool(fs))
+        if fs:
+            path = write_replay(prop, dict(kind="failing-history", property=prop, script=fs, violations=fbad,
+                                           trace_on_crate=ftr, variant=variant, seed=seed,
+                                           how="found by continuing a history on which model and crate disagree ON THE "
+                                               "CRATE, with moves that are conformant in the state the crate's own "
+                                               "trace leaves (TraceEnv.v); the script is conformant w.r.t. the crate's "
+                                               "trace, not w.r.t. the model's run"))
+            out_lines.append("VIOLATION property=%s replay=%s" % (prop, path))
+            status = 1
+            nviol += 1
+    if not viol_scripts and not extra_viols and not (crate_search and crate_search["found"]):
         if mismatches:
             s, mt, rt = mismatches[0]
             a, b = mt.split(), rt.split()
@@ -826,7 +886,7 @@ def replay(prop, path):
     print("model trace :", m[0])
     print("crate trace :", r)
     print("violations  :", " ".join(vs) or "-")
-    bad = [v for v in vs if kind_of(v)[0] in spec.get("kinds", [prop])
+    bad = [v for v in vs if matches(v, spec.get("kinds", [prop]))
            and not suppressed_by(known, header_op(s), v, cl)]
     if bad or m[0] != r:
         print("VIOLATION property=%s replay=%s" % (prop, path))
